@@ -9,7 +9,7 @@
      SB <k> <op> <atom> <op> <atom> [| <hexpat>:<hexsubj>:<0|1> ...]
         -> X | Y | N | B                       (what SimplifyBounds returns)
      EV <constr> ... | <atom> ... [| regexp table]
-        -> <verdict expr> <spec bits> <verdict expr&a1> <verdict expr&a2> ...
+        -> <verdict expr> <spec bits> <all_safe 0|1> <verdict expr&a1> <verdict expr&a2> ...
            verdict: B (bottom) | I (incomplete) | =<atom token>
            spec bits: one 0/1 per probe atom, sat_all
 *)
@@ -133,7 +133,8 @@ let handle line =
        let e = verdict_tok (c03_run re cs) in
        let bits = String.concat "" (List.map (fun a -> if c03_sat_all re a cs then "1" else "0") ps) in
        let per = List.map (fun a -> verdict_tok (c03_run_with re cs a)) ps in
-       String.concat " " (e :: (if bits = "" then "-" else bits) :: per)
+       let safe = if c03_all_safe cs then "1" else "0" in
+       String.concat " " (e :: (if bits = "" then "-" else bits) :: safe :: per)
      | _ -> "BADCASE")
 
 let () =
